@@ -105,6 +105,7 @@ pub fn run(suite: &str, seed: u64, n: usize, corpus: Option<&Path>) -> Vec<Case>
         "files" => files(seed, n),
         "status" => status(seed, n),
         "print" => print(seed, n, corpus),
+        "asp_parse" => asp_parse(seed, n, corpus),
         "decompose" => decompose(seed, n),
         "external" => external(seed, n, corpus, false),
         "external_text" => external(seed, n, corpus, true),
@@ -1046,6 +1047,84 @@ fn print(seed: u64, n: usize, corpus: Option<&Path>) -> Vec<Case> {
         let po = t.po.clone();
         let imp = guarded(move || sexp::q(&po.to_string()));
         cases.push(Case { req: format!("(print_spec {})", spec_sexp(&t.po)), nontrivial: true, imp, tag: "print_spec", origin: t.origin.clone() });
+    }
+    cases
+}
+
+// ------------------------------------------------------------------ the mini-gringo parser itself
+
+/// Spacing variants of a program text: extra blanks / newlines / comments at token boundaries, blanks removed.
+fn respace(text: &str, rng: &mut Rng) -> String {
+    let mut out = String::new();
+    let chars: Vec<char> = text.chars().collect();
+    for (i, &c) in chars.iter().enumerate() {
+        let boundary = matches!(c, '(' | ')' | ',' | ';' | '{' | '}' | '=' | '<' | '>' | '+' | '*' | '/' | '\\' | ':' | '-')
+            || (c == '.' && (i + 1 == chars.len() || chars[i + 1] == '\n'));
+        if boundary && rng.chance(1, 6) {
+            let w: &str = *rng.pick(&[" ", "  ", "\n", " % c\n", "\r\n", " %\n"]); out.push_str(w);
+        }
+        if c == ' ' && rng.chance(1, 4) {
+            match rng.below(4) { 0 => {} , 1 => out.push_str("  "), 2 => out.push_str(" \n "), _ => out.push_str(" % not -1 ..\n") }
+            continue;
+        }
+        out.push(c);
+    }
+    out
+}
+
+/// Near-miss texts: one or two character-level edits of an accepted text.
+fn near_miss(text: &str, rng: &mut Rng) -> String {
+    let mut chars: Vec<char> = text.chars().collect();
+    for _ in 0..(1 + rng.below(2)) {
+        if chars.is_empty() { break; }
+        let i = rng.below(chars.len());
+        match rng.below(5) {
+            0 => { chars.remove(i); }
+            1 => { let c = chars[i]; chars.insert(i, c); }
+            2 => { let j = rng.below(chars.len()); chars.swap(i, j); }
+            3 => { chars.insert(i, *rng.pick(&['-', '.', '(', ')', ' ', '0', '_', 'n', '#', '%', '{', '}', ',', ';', '=', '!', '<', 'X', 'a', '1', ':'])); }
+            _ => { chars[i] = *rng.pick(&['-', '.', '(', ')', ' ', '0', '_', '#', ',', ';', '=', '<', '>', '\\', '/', '*', '+']); }
+        }
+    }
+    chars.into_iter().collect()
+}
+
+fn too_many_digits(text: &str) -> bool {
+    let mut run = 0;
+    for c in text.chars() {
+        if c.is_ascii_digit() { run += 1; if run >= 18 { return true; } } else { run = 0; }
+    }
+    false
+}
+
+/// `text.parse::<Program>()` against the Lean model of the grammar and the tree builder: accepted or not, and the tree.
+fn asp_parse(seed: u64, n: usize, corpus: Option<&Path>) -> Vec<Case> {
+    let mut texts: Vec<(String, String)> = vec![];
+    for l in corpus_lines(corpus, "asp_texts") {
+        texts.push((format!("corpus:{l}"), l.replace("\\n", "\n").replace("\\s", " ").replace("\\h", "#").replace("\\r", "\r")));
+    }
+    let mut rng = Rng::new(seed ^ 0xA5B0);
+    for (origin, p) in programs(seed ^ 0xA5B1, n / 2, corpus, &["programs"]) {
+        let printed = p.to_string();
+        let verbose: String = p.rules.iter().map(crate::roundtrip::v_rule).collect::<Vec<_>>().join("\n");
+        match rng.below(6) {
+            0 => texts.push((origin, printed)),
+            1 => texts.push((origin, verbose)),
+            2 => texts.push((origin, respace(&printed, &mut rng))),
+            3 => texts.push((origin, respace(&verbose, &mut rng))),
+            4 => texts.push((origin, near_miss(&printed, &mut rng))),
+            _ => { let t = respace(&printed, &mut rng); texts.push((origin, near_miss(&t, &mut rng))) }
+        }
+    }
+    let mut cases = vec![];
+    for (origin, text) in texts {
+        if too_many_digits(&text) { continue; }
+        let t = text.clone();
+        let imp = guarded(move || match t.parse::<asp::Program>() {
+            Ok(p) => format!("(ok {})", sexp::program(&p)),
+            Err(_) => "(error)".to_string(),
+        });
+        cases.push(Case { req: format!("(asp_parse {})", sexp::q(&text)), nontrivial: imp != "(error)", imp, tag: "asp_parse", origin });
     }
     cases
 }
